@@ -450,16 +450,50 @@ Definition lrv_marshal (e : lrv) : option bytes :=
     end
   else Some (string_bytes v).
 
+(* tagAsRead (natural_language_values.go): the language tag as a reader of the written JSON gets it back -
+   one U+FFFD per byte that does not start a well-formed UTF-8 sequence, which is what stringBytes writes;
+   one step per utf8.DecodeRune, as in [sbody] *)
+Definition fffd : bytes := [xef; xbf; xbd].
+Fixpoint tag_as_read (s : bytes) : bytes :=
+  match s with
+  | [] => []
+  | b :: r =>
+      if (bn b <? 128)%N then b :: tag_as_read r
+      else match utf8_n b with
+           | 1 => match r with
+                  | c1 :: r1 =>
+                      if in_rng c1 (utf8_lo b) (utf8_hi b) then b :: c1 :: tag_as_read r1
+                      else fffd ++ tag_as_read r
+                  | _ => fffd ++ tag_as_read r
+                  end
+           | 2 => match r with
+                  | c1 :: c2 :: r2 =>
+                      if in_rng c1 (utf8_lo b) (utf8_hi b) && is_cont c2 then b :: c1 :: c2 :: tag_as_read r2
+                      else fffd ++ tag_as_read r
+                  | _ => fffd ++ tag_as_read r
+                  end
+           | 3 => match r with
+                  | c1 :: c2 :: c3 :: r3 =>
+                      if in_rng c1 (utf8_lo b) (utf8_hi b) && is_cont c2 && is_cont c3 then
+                        b :: c1 :: c2 :: c3 :: tag_as_read r3
+                      else fffd ++ tag_as_read r
+                  | _ => fffd ++ tag_as_read r
+                  end
+           | _ => fffd ++ tag_as_read r
+           end
+  end.
+
 (* the loop of the map branch of NaturalLanguageValues.MarshalJSON: (buffer, empty, keys written so far).
-   [dedup] (fix 05721dc): of several values whose tags are WRITTEN alike the first is kept - a JSON object holds one
-   value per member name; entries with an empty tag or an empty text are skipped before the key is registered *)
+   [dedup] (fix 05721dc and its follow-up): of several values whose tags READ BACK alike (tagAsRead) the first is kept -
+   a JSON object holds one value per member name; entries with an empty tag or an empty text are skipped before the
+   key is registered *)
 Definition nlv_map_step (key_for_nil dedup : bool) (st : bytes * bool * list bytes) (e : lrv) : bytes * bool * list bytes :=
   let '(b, empty, keys) := st in
   let '(ref, v) := e in
   if Nat.eqb (length ref) 0 || Nat.eqb (length v) 0 then (b, empty, keys)
-  else if dedup && existsb (bytes_eqb (string_bytes ref)) keys then (b, empty, keys)
+  else if dedup && existsb (bytes_eqb (tag_as_read ref)) keys then (b, empty, keys)
   else
-    let keys := if dedup then keys ++ [string_bytes ref] else keys in
+    let keys := if dedup then keys ++ [tag_as_read ref] else keys in
     let b := if empty then b else b ++ [bCM] in
     let b := if key_for_nil && bytes_eqb ref NilRef then b ++ string_bytes ref ++ [bCO] else b in
     match lrv_marshal e with
